@@ -120,185 +120,95 @@ theorem remLoop_append (P : Params) (text : Str) : ∀ (s t : Str) (a : RAcc),
     | error e => rfl
     | ok a' => exact ih t a'
 
-/-- characters of a number token as the machine sees them: no quote, blank or hash -/
-def TsChars (s : Str) : Prop := ∀ c ∈ s, c ≠ '"' ∧ c ≠ ' ' ∧ c ≠ '#'
+theorem remEscape_on : Generated.OMParse.remEscapeAware = true := by decide
+
+/-- characters of a number token as the machine sees them: no quote, backslash, blank or hash -/
+def TsChars (s : Str) : Prop := ∀ c ∈ s, c ≠ '"' ∧ c ≠ ' ' ∧ c ≠ '#' ∧ c ≠ '\\'
 
 theorem tsChars_numTok {t : Str} (h : NumTok t) : TsChars t := fun c hc =>
-  ⟨numChar_ne (h.2 c hc) (by decide), numChar_ne (h.2 c hc) (by decide), numChar_ne (h.2 c hc) (by decide)⟩
+  ⟨numChar_ne (h.2 c hc) (by decide), numChar_ne (h.2 c hc) (by decide), numChar_ne (h.2 c hc) (by decide),
+   numChar_ne (h.2 c hc) (by decide)⟩
 
 theorem remLoop_timestamp (P : Params) (text : Str) : ∀ (s : Str), TsChars s → ∀ (ts ev et : Str) (el : Option Labels),
-    remLoop P text ⟨.timestamp, false, ts, ev, et, el⟩ s = .ok ⟨.timestamp, false, s.reverse ++ ts, ev, et, el⟩ := by
+    remLoop P text ⟨.timestamp, false, false, ts, ev, et, el⟩ s = .ok ⟨.timestamp, false, false, s.reverse ++ ts, ev, et, el⟩ := by
   intro s
   induction s with
   | nil => intro _ ts ev et el; rfl
   | cons c cs ih =>
     intro h ts ev et el
-    obtain ⟨h1, h2, h3⟩ := h c (by simp)
+    obtain ⟨h1, h2, h3, h4⟩ := h c (by simp)
     have e1 : (c == '"') = false := by simpa using h1
     have e2 : (c == ' ') = false := by simpa using h2
     have e3 : (c == '#') = false := by simpa using h3
+    have e4 : (c == '\\') = false := by simpa using h4
     rw [remLoop]
-    simp only [remStep, e1, e2, e3, Bool.false_eq_true, ↓reduceIte, Bool.false_and]
+    simp only [remStep, e1, e2, e3, e4, Bool.false_eq_true, ↓reduceIte, Bool.false_and]
     rw [ih (fun d hd => h d (by simp [hd]))]
     simp
 
 theorem remLoop_exvalue (P : Params) (text : Str) : ∀ (s : Str), TsChars s → ∀ (ts ev et : Str) (el : Option Labels),
-    remLoop P text ⟨.exemplarvalue, false, ts, ev, et, el⟩ s = .ok ⟨.exemplarvalue, false, ts, s.reverse ++ ev, et, el⟩ := by
+    remLoop P text ⟨.exemplarvalue, false, false, ts, ev, et, el⟩ s = .ok ⟨.exemplarvalue, false, false, ts, s.reverse ++ ev, et, el⟩ := by
   intro s
   induction s with
   | nil => intro _ ts ev et el; rfl
   | cons c cs ih =>
     intro h ts ev et el
-    obtain ⟨h1, h2, _⟩ := h c (by simp)
+    obtain ⟨h1, h2, _, h4⟩ := h c (by simp)
     have e1 : (c == '"') = false := by simpa using h1
     have e2 : (c == ' ') = false := by simpa using h2
+    have e4 : (c == '\\') = false := by simpa using h4
     rw [remLoop]
-    simp only [remStep, e1, e2, Bool.false_eq_true, ↓reduceIte, Bool.false_and]
+    simp only [remStep, e1, e2, e4, Bool.false_eq_true, ↓reduceIte, Bool.false_and]
     rw [ih (fun d hd => h d (by simp [hd]))]
     simp
 
 theorem remLoop_exts (P : Params) (text : Str) : ∀ (s : Str), TsChars s → ∀ (ts ev et : Str) (el : Option Labels),
-    remLoop P text ⟨.exemplartimestamp, false, ts, ev, et, el⟩ s = .ok ⟨.exemplartimestamp, false, ts, ev, s.reverse ++ et, el⟩ := by
+    remLoop P text ⟨.exemplartimestamp, false, false, ts, ev, et, el⟩ s =
+      .ok ⟨.exemplartimestamp, false, false, ts, ev, s.reverse ++ et, el⟩ := by
   intro s
   induction s with
   | nil => intro _ ts ev et el; rfl
   | cons c cs ih =>
     intro h ts ev et el
-    obtain ⟨h1, _, _⟩ := h c (by simp)
+    obtain ⟨h1, _, _, h4⟩ := h c (by simp)
     have e1 : (c == '"') = false := by simpa using h1
+    have e4 : (c == '\\') = false := by simpa using h4
     rw [remLoop]
-    simp only [remStep, e1, Bool.false_eq_true, ↓reduceIte]
+    simp only [remStep, e1, e4, Bool.false_eq_true, ↓reduceIte, Bool.false_and]
     rw [ih (fun d hd => h d (by simp [hd]))]
     simp
 
-/-- in-quotes flag of the exemplar machine after a text (it flips on every double quote) -/
-def exRun : Bool → Str → Bool
-  | q, [] => q
-  | q, c :: cs => exRun (if c == '"' then !q else q) cs
-
-/-- no '}' is met while the flag is clear -/
-def exSafe : Bool → Str → Bool
-  | _, [] => true
-  | q, c :: cs => ((if c == '"' then !q else q) || c != '}') && exSafe (if c == '"' then !q else q) cs
-
-theorem exRun_append (a b : Str) : ∀ q, exRun q (a ++ b) = exRun (exRun q a) b := by
-  induction a with
-  | nil => intro q; rfl
-  | cons c cs ih => intro q; simp only [List.cons_append, exRun, ih]
-
-theorem exSafe_append (a b : Str) : ∀ q, exSafe q (a ++ b) = (exSafe q a && exSafe (exRun q a) b) := by
-  induction a with
-  | nil => intro q; simp [exSafe, exRun]
-  | cons c cs ih => intro q; simp only [List.cons_append, exSafe, exRun, ih, Bool.and_assoc]
-
-theorem remLoop_parsedlabels (P : Params) (text : Str) : ∀ (s : Str) (q : Bool), exSafe q s = true →
+/-- in state `exemplarparsedlabels` the machine (escape-aware since bc8d08a) follows exactly the quote/backslash automaton of
+`_next_unquoted_char` (`Scanner.run`) and leaves the state at the first '}' outside quotes: a text without one (`noHit`) is
+passed -/
+theorem remLoop_parsedlabels (P : Params) (text : Str) : ∀ (s : Str) (q o : Bool), noHit rbChs s q o = true →
     ∀ (ts ev et : Str) (el : Option Labels),
-    remLoop P text ⟨.exemplarparsedlabels, q, ts, ev, et, el⟩ s = .ok ⟨.exemplarparsedlabels, exRun q s, ts, ev, et, el⟩ := by
+    remLoop P text ⟨.exemplarparsedlabels, q, o, ts, ev, et, el⟩ s =
+      .ok ⟨.exemplarparsedlabels, (Scanner.run s q o).1, (Scanner.run s q o).2, ts, ev, et, el⟩ := by
   intro s
   induction s with
-  | nil => intro q _ ts ev et el; rfl
+  | nil => intro q o _ ts ev et el; rfl
   | cons c cs ih =>
-    intro q h ts ev et el
-    simp only [exSafe, Bool.and_eq_true, Bool.or_eq_true, bne_iff_ne] at h
-    rw [remLoop, exRun]
-    cases hq : (if c == '"' then !q else q) with
+    intro q o h ts ev et el
+    simp only [noHit, Bool.and_eq_true, Bool.not_eq_true', Bool.and_eq_false_iff, Bool.not_eq_false'] at h
+    rw [remLoop, Scanner.run]
+    have hq : (if c == '"' && !(Generated.OMParse.remEscapeAware && o) then !q else q) = qStep q o c := by
+      simp [remEscape_on, qStep]
+    have ho : (c == '\\' && !o) = bsStep o c := by
+      unfold bsStep; by_cases hc : (c == '\\') = true <;> simp [hc]
+    cases hqs : qStep q o c with
     | true =>
-      simp only [remStep, hq, ↓reduceIte]
-      exact ih true (by rw [hq] at h; exact h.2) ts ev et el
+      simp only [remStep, hq, hqs, ho, ↓reduceIte]
+      exact ih true _ (by rw [hqs] at h; exact h.2) ts ev et el
     | false =>
       have hne : (c == '}') = false := by
         rcases h.1 with h1 | h1
-        · rw [hq] at h1; cases h1
-        · simpa using h1
-      simp only [remStep, hq, Bool.false_eq_true, ↓reduceIte, hne]
-      exact ih false (by rw [hq] at h; exact h.2) ts ev et el
+        · rw [hqs] at h1; cases h1
+        · simpa [rbChs] using h1
+      simp only [remStep, hq, hqs, ho, Bool.false_eq_true, ↓reduceIte, hne]
+      exact ih false _ (by rw [hqs] at h; exact h.2) ts ev et el
 
--- what the label block of an exemplar looks like to the machine ---------------------------------------------------------------
-
-theorem ex_plain {p : Str} (h : ∀ c ∈ p, c ≠ '"' ∧ c ≠ '}') : exSafe false p = true ∧ exRun false p = false := by
-  induction p with
-  | nil => exact ⟨rfl, rfl⟩
-  | cons c cs ih =>
-    obtain ⟨h1, h2⟩ := h c (by simp)
-    have e1 : (c == '"') = false := by simpa using h1
-    have ih' := ih (fun d hd => h d (by simp [hd]))
-    have e2 : (c != '}') = true := by simpa using h2
-    simp only [exSafe, exRun, e1, Bool.false_eq_true, ↓reduceIte, Bool.false_or, e2, Bool.true_and]
-    exact ih'
-
-theorem ex_inside {p : Str} (h : '"' ∉ p) : exSafe true p = true ∧ exRun true p = true := by
-  induction p with
-  | nil => exact ⟨rfl, rfl⟩
-  | cons c cs ih =>
-    have h1 : c ≠ '"' := fun e => h (by simp [e])
-    have e1 : (c == '"') = false := by simpa using h1
-    have ih' := ih (fun hm => h (by simp [hm]))
-    simp only [exSafe, exRun, e1, Bool.false_eq_true, ↓reduceIte, Bool.true_or, Bool.true_and]
-    exact ih'
-
-/-- a quoted piece whose content has no double quote -/
-theorem ex_quoted {p : Str} (h : '"' ∉ p) : exSafe false ('"' :: (p ++ ['"'])) = true ∧ exRun false ('"' :: (p ++ ['"'])) = false := by
-  have hi := ex_inside h
-  refine ⟨?_, ?_⟩
-  · simp only [exSafe, beq_self_eq_true, ↓reduceIte, Bool.not_false, Bool.true_or, Bool.true_and]
-    rw [exSafe_append, hi.1, hi.2]
-    simp [exSafe]
-  · simp only [exRun, beq_self_eq_true, ↓reduceIte, Bool.not_false]
-    rw [exRun_append, hi.2]
-    simp [exRun]
-
-def ExPass (s : Str) : Prop := exSafe false s = true ∧ exRun false s = false
-
-theorem exPass_append {a b : Str} (ha : ExPass a) (hb : ExPass b) : ExPass (a ++ b) := by
-  refine ⟨?_, ?_⟩
-  · rw [exSafe_append, ha.1, ha.2]; simpa using hb.1
-  · rw [exRun_append, ha.2]; exact hb.2
-
-theorem exPass_nil : ExPass [] := ⟨rfl, rfl⟩
-
-theorem quote_not_mem_escChar {c : Char} (h : c ≠ '"') : '"' ∉ escChar c := by
-  unfold escChar
-  by_cases h1 : c = '\\'
-  · subst h1; decide
-  · by_cases h2 : c = '\n'
-    · subst h2; decide
-    · simp only [h1, h2, h, ↓reduceIte, List.mem_cons, List.not_mem_nil, or_false]
-      exact fun e => h e.symm
-
-/-- escaping adds no double quote to a text that has none -/
-theorem quote_not_mem_escape {s : Str} (h : '"' ∉ s) : '"' ∉ escape s := by
-  rw [escape_eq_flatMap]
-  intro hm
-  obtain ⟨c, hc, hq⟩ := List.mem_flatMap.mp hm
-  exact quote_not_mem_escChar (fun e => h (e ▸ hc)) hq
-
-theorem exPass_nameTok {legacy : Bool} {k : Str} (h : labelNameOK legacy k = true) (hq : '"' ∉ k) :
-    ExPass (escapeLabelName k) := by
-  rcases nameTok_cases h with ⟨e, _, hc, _⟩ | e
-  · rw [e]
-    exact ex_plain (fun c hm => ⟨legacyChar_ne (hc c hm) (by decide), legacyChar_ne (hc c hm) (by decide)⟩)
-  · rw [e]
-    exact ex_quoted (quote_not_mem_escape hq)
-
-theorem exPass_item {legacy : Bool} {kv : Str × Str} (h : labelNameOK legacy kv.1 = true) (hk : '"' ∉ kv.1) (hv : '"' ∉ kv.2) :
-    ExPass (labelItem kv) := by
-  rw [labelItem_eq]
-  have h1 := exPass_nameTok h hk
-  have h2 : ExPass ['='] := ex_plain (by intro c hc; simp at hc; subst hc; exact ⟨by decide, by decide⟩)
-  have h3 : ExPass ('"' :: (escape kv.2 ++ ['"'])) := ex_quoted (quote_not_mem_escape hv)
-  have := exPass_append h1 (exPass_append h2 h3)
-  simpa using this
-
-theorem exPass_tail {legacy : Bool} (l : List (Str × Str)) (h : ∀ kv ∈ l, labelNameOK legacy kv.1 = true)
-    (hq : ∀ kv ∈ l, '"' ∉ kv.1 ∧ '"' ∉ kv.2) : ExPass (tailStr l) := by
-  induction l with
-  | nil => exact exPass_nil
-  | cons kv r ih =>
-    rw [tailStr_cons]
-    have h1 : ExPass [','] := ex_plain (by intro c hc; simp at hc; subst hc; exact ⟨by decide, by decide⟩)
-    have h2 := exPass_item (h kv (by simp)) (hq kv (by simp)).1 (hq kv (by simp)).2
-    have h3 := ih (fun x hx => h x (by simp [hx])) (fun x hx => hq x (by simp [hx]))
-    have := exPass_append h1 (exPass_append h2 h3)
-    simpa using this
+/-- the scanner passes the text without meeting a '}' outside quotes and ends where it started -/
+def ExPass (s : Str) : Prop := Pass rbChs s
 
 end PromVerif.Lemmas.OMRt
